@@ -19,6 +19,8 @@ type harnessRun struct {
 	fn       *ssa.Function
 	isMutant bool
 	expect   []string // Reach labels found in the harness source
+	known    *knownFile
+	prop     string
 
 	mu         sync.Mutex
 	paths      int
@@ -254,7 +256,14 @@ func explore(w *World, h *harnessRun, workers []*Worker, maxPaths int, deadline 
 					h.mu.Unlock()
 				}
 				h.mu.Lock()
-				nv := len(h.viols)
+				nv := 0
+				for _, v := range h.viols {
+					// a listed known finding does not end the exploration early: a different
+					// violation further on in the same harness must still be found
+					if h.known == nil || h.known.match(h.prop, v) == "" {
+						nv++
+					}
+				}
 				h.mu.Unlock()
 				if nv > 0 && !h.isMutant {
 					if violAt == 0 {
